@@ -1,7 +1,7 @@
 """Plain unit tests that replay every finding of known_findings.json WITHOUT the explorer (only puan is imported).
 
 run:  cd /repo && /venv/bin/python -m pytest -q -p no:cacheprovider /verif/findings/test_findings.py
-On the repaired tree all tests pass except test_D3_open (expected failure: D3 is an open finding).
+On the repaired tree all tests pass except test_D3_open and test_D12_open_* (expected failures: open findings).
 On the pinned commit (d944b25) every test fails: that is what the checks reported.
 """
 import json
@@ -86,3 +86,22 @@ def test_D10_assume_range_on_compound_keeps_definition():
 def test_D11_default_tag_survives_id_coincidence():
     c = cc.StingyConfigurator(pg.Imply("x", cc.Xor("a", "b", "c", default=["c"])), pg.Imply("x", pg.Any("a", "b")), id="cfg")
     assert sorted(c.ge_polyhedron.default_prio_vector.tolist())[0] == -2
+
+
+@pytest.mark.xfail(reason="open finding D12: the reduced polyhedron comes from the compiled dependency puan_rspy", strict=True)
+def test_D12_open_try_reduce_before_reports_a_non_model():
+    import itertools
+    import numpy
+
+    def exact(polyhedron, objectives):
+        # brute force over the box of the polyhedron handed over
+        A, b = numpy.asarray(polyhedron.A), numpy.asarray(polyhedron.b)
+        box = [range(v.bounds.lower, v.bounds.upper + 1) for v in polyhedron.A.variables]
+        pts = [numpy.array(p) for p in itertools.product(*box) if (A @ numpy.array(p) >= b).all()]
+        for w in objectives:
+            yield (max(pts, key=lambda p: (int(numpy.asarray(w) @ p), tuple(-p))) if pts else None, 0, 5)
+
+    m = pg.AtLeast(2, [pg.AtLeast(1, ["a"], variable="B"),
+                       pg.AtLeast(-2, [puan.variable("t", (-2, 2))], variable="C", sign=puan.Sign.POSITIVE)], variable="A")
+    for sol, _, _ in m.solve([{}, {"a": -1}], solver=exact, try_reduce_before=True):
+        assert m.evaluate(sol).constant == 1, sol
